@@ -11,7 +11,7 @@ class SearchLeg(T.TravLeg):
             "truth value is False; bfs / dfs_recursive / dfs_iterative asked for present, absent and wrong-attribute values from 2 "
             "starts x {universe, None}; oracle = first match (hasattr and ==) in the implementation's own bft / dft_recursive / "
             "dft_iterative listing; non-trivial = some search found a vertex other than the start")
-    quick_n = 200
+    quick_n = 300
     thorough_n = 5000
 
     def phase_oracle(self, case, obs):
